@@ -1,6 +1,7 @@
 ---------------------------- MODULE TraceEnvYaml ----------------------------
 (* Trace validation for C09. One ndjson record per case of EnvYaml.tla executed by the REAL
    conf.Load (harness/internal/conf/zz_verif_c09_test.go):
+     np   - nothing is demanded of the case except that no load crashes
      x    - the case is expressible both ways (EnvYaml!Expressible, computed by TLC when the case
             was generated)
      l1   - Load(file with the parameter set to v, empty environment)        [err, panic]
@@ -20,9 +21,11 @@ TraceSpec == TraceInit /\ [][TraceNext]_l
 
 AnyPanic(r) == r.l1.panic \/ r.l2.panic \/ r.l3.panic
 
+\* np: the case demands nothing but the absence of a crash (variable names that continue after a parameter name)
 Monitors == {"NoPanic", "EnvEqualsFile", "EnvOverridesFile"}
 RecOK(r, mon) ==
-    r.x =>
+    IF ~r.x THEN (mon = "NoPanic" /\ r.np) => ~AnyPanic(r)
+    ELSE
       CASE mon = "NoPanic"          -> ~AnyPanic(r)
         [] mon = "EnvEqualsFile"    -> (~r.l1.panic /\ ~r.l2.panic) => (r.l1.err = r.l2.err /\ (~r.l1.err => r.eq12))
         [] mon = "EnvOverridesFile" -> (~r.l1.panic /\ ~r.l3.panic) => (r.l1.err = r.l3.err /\ (~r.l1.err => r.eq13))
